@@ -25,7 +25,7 @@ RULE = (
     "pairs that actually changed the parsed value or broke the file."
 )
 RULE += (
-    " " + 'Added later: every accessor asked again, also on a pickle round trip / copy / deepcopy of the refused handle; a session attempting update_cache twice over the damage; repair() given a one-shot iterator; single- and multi-job damage cases alternate.'
+    " " + 'Added later: every accessor asked again, also on a pickle round trip / copy / deepcopy of the refused handle; a session attempting update_cache twice over the damage; repair() given a one-shot iterator; single- and multi-job damage cases alternate; every third cache case has repair(job_ids=[...]) done by a handle that was already in use before another session wrote the persistent cache.'
     " In every third case DEBUG logging is effective for the package."
 )
 ASSUMPTIONS = [
@@ -159,6 +159,13 @@ def gen_cases(ctx):
             merged.append(multi[k])
         if k < len(single):
             merged.append(single[k])
+    # every third case with a persistent cache has the repair done, with explicit ids, by a handle that was in use
+    # before another session wrote that cache (no random draw: the other cases stay exactly as they were)
+    nc = 0
+    for c in merged:
+        if c["cache"]:
+            c["lived"] = nc % 3 == 0
+            nc += 1
     for i, c in enumerate(merged):
         if ctx.take(i):
             yield c
@@ -261,6 +268,12 @@ def run_case(ctx, case):
         sig.write_file(job.fn("marker.txt"), f"marker-{k}")
         sig.write_file(job.fn("sub/data.bin"), bytes([k]) * 40)
         jobs.append(job.id)
+    lived = None
+    if case["cache"] and case.get("lived"):
+        # a long-lived session: its handle has been used (so it has looked for the persistent cache, found none)
+        # before some other session writes that cache
+        lived = signac.Project(path)
+        lived.open_job({"never": "initialised"})
     if case["cache"]:
         signac.Project(path).update_cache()
     cache_ids = set(jobs) if case["cache"] else set()
@@ -410,7 +423,11 @@ def run_case(ctx, case):
         return
     rp = signac.Project(path)
     try:
-        if len(damaged) % 2:
+        if lived is not None:
+            ctx.count("repair_with_ids_by_handle_older_than_the_cache")
+            rp = lived
+            rp.repair(job_ids=sorted(names))
+        elif len(damaged) % 2:
             rp.repair()
         else:
             # the ids to repair are documented as an iterable: here one that can be walked only once
